@@ -121,4 +121,66 @@ theorem box_cauchy_schwarz (ms : List Nat) (w a b : List Nat → α) (hw : ∀ k
       rw [this, ← hz]; simp
 end ord
 
+
+section win
+variable {α : Type} [Field α] [LinearOrder α] [IsStrictOrderedRing α]
+
+/-- the masked sums of one window: `w` mask weights, `a` window values, `h` template values -/
+structure Win (α : Type) where
+  ms : List Nat
+  w : List Nat → α
+  a : List Nat → α
+  h : List Nat → α
+
+variable (W : Win α)
+
+def Win.n : α := sumShape W.ms W.w
+def Win.mu : α := sumShape W.ms (fun k => W.w k * W.h k) / W.n
+def Win.fbar : α := sumShape W.ms (fun k => W.w k * W.a k) / W.n
+/-- numerator before division by the template's standard deviation: `Σ w a (h − μ)` -/
+def Win.N : α := sumShape W.ms (fun k => W.w k * (W.a k * (W.h k - W.mu)))
+/-- `Σ w (a − ā)²` -/
+def Win.A : α := sumShape W.ms (fun k => W.w k * ((W.a k - W.fbar) * (W.a k - W.fbar)))
+/-- `Σ w (h − μ)²` -/
+def Win.B : α := sumShape W.ms (fun k => W.w k * ((W.h k - W.mu) * (W.h k - W.mu)))
+
+theorem Win.centered_sum_zero (hn : W.n ≠ 0) : sumShape W.ms (fun k => W.w k * (W.h k - W.mu)) = 0 := by
+  have e : (fun k => W.w k * (W.h k - W.mu)) = fun k => W.w k * W.h k - W.mu * W.w k := by funext k; ring
+  rw [e, sumShape_sub, sumShape_mul_left]
+  unfold Win.mu
+  have : W.n = sumShape W.ms W.w := rfl
+  rw [← this]
+  field_simp
+  ring
+
+/-- the numerator only sees the centred window: `Σ w a (h−μ) = Σ w (a−ā)(h−μ)` -/
+theorem Win.N_centered (hn : W.n ≠ 0) :
+    W.N = sumShape W.ms (fun k => W.w k * ((W.a k - W.fbar) * (W.h k - W.mu))) := by
+  have e : (fun k => W.w k * ((W.a k - W.fbar) * (W.h k - W.mu)))
+      = fun k => W.w k * (W.a k * (W.h k - W.mu)) - W.fbar * (W.w k * (W.h k - W.mu)) := by funext k; ring
+  rw [e, sumShape_sub, sumShape_mul_left, W.centered_sum_zero hn]
+  simp [Win.N]
+
+/-- the code's variance formula `E[x²] − E[x]²` is the centred sum: `Σ w a²/n − (Σ w a/n)² = A/n` -/
+theorem Win.var_formula_a (hn : W.n ≠ 0) :
+    sumShape W.ms (fun k => W.w k * (W.a k * W.a k)) / W.n - (sumShape W.ms (fun k => W.w k * W.a k) / W.n) ^ 2
+      = W.A / W.n := by
+  have e : (fun k => W.w k * ((W.a k - W.fbar) * (W.a k - W.fbar)))
+      = fun k => W.w k * (W.a k * W.a k) + ((-(2 * W.fbar)) * (W.w k * W.a k) + (W.fbar * W.fbar) * W.w k) := by
+    funext k; ring
+  unfold Win.A
+  rw [e, sumShape_add, sumShape_add, sumShape_mul_left, sumShape_mul_left]
+  unfold Win.fbar
+  have : W.n = sumShape W.ms W.w := rfl
+  rw [← this]
+  field_simp
+  ring
+
+theorem Win.var_formula_h (hn : W.n ≠ 0) :
+    sumShape W.ms (fun k => W.w k * (W.h k * W.h k)) / W.n - (sumShape W.ms (fun k => W.w k * W.h k) / W.n) ^ 2
+      = W.B / W.n :=
+  Win.var_formula_a ⟨W.ms, W.w, W.h, W.h⟩ hn
+
+end win
+
 end Pm.C03
